@@ -263,6 +263,8 @@ def report(ctx, prop, outs, level, tier, seed, assumptions, trusted, t0, evid_pa
             violations.append(r)
     for e in errors:
         broken.append("task %s: %s" % (e["task"], e["error"]))
+        if os.environ.get("VERIF_DEBUG"):
+            print(e.get("trace", ""))
     for c in covers:
         if c["result"] != "sat":
             broken.append("cover %s is %s: precondition is contradictory or undecided (vacuous proof)" % (c["name"], c["result"]))
